@@ -323,6 +323,7 @@ func runC06(c *Ctx) {
 	{
 		g := NewGate(c.P)
 		g.Inline = inl
+		g.Search = true // a pre-scan "does the list hold a $replace rule" reads as exists(list, test)
 		s := g.Eval(gdb)
 		u := g.U
 		ps := g.ParamExprs(gdb)
@@ -399,6 +400,21 @@ func runC06(c *Ctx) {
 					retOther = "a return inside the scan yields " + clip(u.Show(r.Vals[0]), 100)
 				}
 			}
+			// ... or a nil return before the scan under "some rule of the scanned list satisfies T": T is
+			// then judged on the candidate like the in-loop test
+			var preEx []*E
+			preNil := False
+			for _, r := range s.Rets {
+				if !r.Vals[0].IsNil() || u.bdd.And(r.Cond, cont) != False && u.bdd.Implies(r.Cond, cont) {
+					continue
+				}
+				for _, at := range u.AtomsOf(r.Cond) {
+					if at.Op == "exists" && len(at.Args) == 2 && at.Args[0] == coll && at.Args[1].Op == "bool" && u.bdd.Implies(r.Cond, u.Atom(at)) {
+						preEx = append(preEx, at)
+						preNil = u.bdd.Or(preNil, u.Atom(at))
+					}
+				}
+			}
 			bad, bad2 := "", retOther
 			n := 0
 			for mask := 0; mask < 16; mask++ {
@@ -418,11 +434,30 @@ func runC06(c *Ctx) {
 						}
 						sub[call.key] = u.Bool(boolRef(hp == 1))
 						identitySub(u, chosen, cand, inc, sub)
+						// a candidate is being looked at, so the list handed in was not empty
+						for _, prm := range g.ParamExprs(gdb) {
+							sub[u.Eq(u.Len(prm), u.Int(0)).key] = u.Bool(False)
+							for _, at := range u.AtomsOf(u.ToBool(u.Eq(u.Len(prm), u.Int(0)))) {
+								sub[at.key] = u.Bool(False)
+							}
+						}
 						for _, at := range u.AtomsOf(cont) {
 							sub[at.key] = u.Bool(boolRef(u.bdd.Implies(cont, u.Atom(at))))
 						}
 						n++
 						rep := bits&K["OptionReplace"] != 0
+						// the pre-scan test on this candidate (the other rules of the list are taken not to
+						// satisfy it: the table is about what one candidate does)
+						for _, ex := range preEx {
+							bv := u.BVar(0, cand.Typ)
+							for _, x := range u.Collect(ex.Args[1], func(x *E) bool { return x.Op == "bvar" }) {
+								bv = x
+							}
+							onCand := u.SubstBool(ex.Args[1].B, map[string]*E{bv.key: cand})
+							if v, okv, _ := foldCond(u, onCand, optMaskAtomSub(u, cand, bits)); okv {
+								sub[ex.key] = u.Bool(boolRef(v))
+							}
+						}
 						val, ok, res := foldCond(u, chosen, sub)
 						want := bits == 0 && (old == 0 || hp == 1)
 						if !ok && bad == "" {
@@ -430,7 +465,7 @@ func runC06(c *Ctx) {
 						} else if ok && val != want && bad == "" {
 							bad = fmt.Sprintf("rule with cookie/replace/csp/stealth bits %#x, incumbent nil=%v, outranks=%v: selected=%v, documented %v", bits, old == 0, hp == 1, val, want)
 						}
-						val2, ok2, res2 := foldCond(u, retNil, sub)
+						val2, ok2, res2 := foldCond(u, u.bdd.Or(retNil, preNil), sub)
 						if !ok2 && bad2 == "" {
 							bad2 = "UNDECIDED: " + res2
 						} else if ok2 && val2 != rep && bad2 == "" {
